@@ -68,9 +68,16 @@ class AnchorLost(Exception):
     pass
 
 
-def extract_fn(lines, anchor):
-    """Return (start, end) line indexes of the function whose signature line (trimmed) equals `anchor`."""
+def extract_fn(lines, anchor, after=None):
+    """Return (start, end) line indexes of the function whose signature line (trimmed) equals `anchor`.
+    The anchor must be unique, or - when `after` (the exact text of a unique earlier line, e.g. an impl header) is given -
+    the first occurrence following that line is taken."""
     idx = [i for i, l in enumerate(lines) if l.strip() == anchor]
+    if after is not None:
+        a = [i for i, l in enumerate(lines) if l.strip() == after]
+        if len(a) != 1:
+            raise AnchorLost("context anchor %r found %d times" % (after, len(a)))
+        idx = [i for i in idx if i > a[0]][:1]
     if len(idx) != 1:
         raise AnchorLost("signature anchor %r found %d times" % (anchor, len(idx)))
     start = idx[0]
@@ -115,7 +122,7 @@ def build_unit(ob, src_text):
     with open(os.path.join(VERUS_DIR, ov["prelude"])) as f:
         text = f.read()
     for item in ov["items"]:
-        s, e = extract_fn(lines, item["anchor"])
+        s, e = extract_fn(lines, item["anchor"], item.get("anchor_after"))
         body = list(lines[s:e + 1])
         sha = hashlib.sha256("\n".join(body).encode()).hexdigest()
         log.append("X1 %s: lines %d-%d of %s, sha256 %s" % (item["anchor"], s + 1, e + 1, ov["source"], sha[:16]))
